@@ -1,11 +1,13 @@
 import TracklibVerif.Lemmas.Filter
 import TracklibVerif.Lemmas.FilterNp
+import TracklibVerif.Lemmas.FilterShort
+import TracklibVerif.Lemmas.FilterKernels
 import Mathlib.Algebra.Order.Ring.Rat
 import Mathlib.Algebra.Field.Rat
 import Mathlib.Tactic.NormNum
 /-! # C15 — kernel smoothing is a renormalised local weighted mean
 
-Property theorems only (helpers are in `Lemmas/Filter.lean` and `Lemmas/FilterNp.lean`, the model in
+Property theorems only (helpers are in `Lemmas/Filter.lean`, `FilterNp.lean`, `FilterShort.lean`, `FilterKernels.lean`, the model in
 `Model/Filter.lean`). Scalars: any linearly ordered field (`ℚ`, `ℝ`); NaN is `none`. Vocabulary (defined
 in `Lemmas/Filter.lean`):
 
@@ -15,14 +17,23 @@ in `Lemmas/Filter.lean`):
 * `filterWindow v k boundary` — `Filter.execute` once the kernel has been turned into the window `k`
   (`boundary = kernel.filterBoundary()`, `false` for a weight list); `execute` — the whole method on the
   values of the input feature; `operate` — `track.operate(Operator.FILTER, af_in, kernel, af_out)` on a
-  track of named signals (kernel possibly a feature name); `filterSeq` / `filterSeqCall` / `smooth` /
-  `session` — `filter_seq` on a list of names / with its `dim` argument and the module-level state /
-  `Track.smooth` / several calls in one process.
+  track of named signals (kernel possibly a feature name); `operateArgs` — the argument forms of
+  `Track.operate` (output name omitted, lists of names); `filterSeq` / `filterSeqCall` / `smooth` /
+  `session` / `filterSeqRepeat` — `filter_seq` on a list of names / with its `dim` argument and the
+  module-level state / `Track.smooth` / several calls in one process / several calls on the same track.
 
 Domain (`InDomain`): odd window, non-negative weights, every collected norm positive, and a signal
-at least as long as the half window when the boundary values are copied. Outside it (a zero norm) the
-theorems say what happens instead: `zero_norm_fails`, `list_zero_weights`, `list_no_sample_fails`,
-`window_zero_sum_fails`. -/
+at least as long as the *half* window when the boundary values are copied — no other condition on the
+length: tracks shorter than the window are covered (`short_track_filtered`, `short_track_unchanged`,
+`execute_short_track`, `smooth_short_track`). Outside it the theorems say what happens instead: a zero norm
+(`zero_norm_fails`, `list_zero_weights`, `list_no_sample_fails`, `window_zero_sum_fails`), a track shorter
+than the half window with copied boundaries (`short_track_index_error`, `smooth_too_short_fails`), a float
+given as kernel (`number_kernel_refused`).
+
+Kernel functions: Uniform / Triangular / Epanechnikov (`builtin_kernels`, `builtin_kernel_windows`), Cubic /
+Spheric (`pow_kernels`, `pow_kernel_windows`; `math.pow` with an integer exponent is a product), Gaussian /
+Exponential (`exp_kernel_windows`, `smooth_gaussian`; `math.exp` is any positive-valued function — the one
+assumption on libm), user-defined (`user_kernel_window`, `window_of_nonneg_kernel`). -/
 set_option linter.unusedSectionVars false
 namespace TV.C15
 open TV.Filter
@@ -279,31 +290,17 @@ theorem builtin_kernels (size : α) (hsize : 0 < size) :
 
 /-! ## `filter_seq` and `Track.smooth` -/
 
-/-- **`filter_seq`** For a weight list (not of length one), a Kernel object or the Dirac kernel, on a
-track with at least one observation, and distinct dimensions none of which is the scratch feature
-`temp` or one of the virtual features `t`, `timestamp`, `idx`, every one of which is a signal of the
-track in the domain: `filter_seq` succeeds; each listed coordinate / feature is replaced by the
-signal of renormalised weighted means of its own former values (the same window for all of them —
-the in-place normalisation of the list at the first dimension does not change the result for the
-following ones); every other signal except `temp` is untouched. -/
-theorem filterSeq_is_mean (t : Sigs α) (kern : KArg α) (w : List α) (b : Bool) (dims : List String)
-    (hp : Prepared kern w b) (hone : ∀ a, kern ≠ .list [a])
+/-- **The loop `for af in dim`** of `filter_seq` (also what the list form of `Track.operate` runs on feature
+names, see `operate_list_is_mean`), for a weight list of any length, a Kernel object or the Dirac kernel: every
+listed coordinate / feature is replaced by its mean signal, the kernel being the same Python object at every turn. -/
+theorem seqLoop_is_mean (t : Sigs α) (kern : KArg α) (w : List α) (b : Bool) (dims : List String)
+    (hp : Prepared kern w b)
     (hnd : dims.Nodup) (htemp : "temp" ∉ dims)
     (hres : ∀ d ∈ dims, d ≠ "t" ∧ d ≠ "timestamp" ∧ d ≠ "idx") (hsize : trackSize t ≠ 0)
     (hall : ∀ d ∈ dims, ∃ v, getSig t d = some v ∧ InDomain v w b) :
-    ∃ t', filterSeq t (.k kern) dims = .ok t' ∧
+    ∃ t', seqLoop dims (.arg kern) t = .ok t' ∧
       (∀ d ∈ dims, ∃ v, getSig t d = some v ∧ getSig t' d = some (meanSignal v w b)) ∧
       (∀ nm, nm ∉ dims → nm ≠ "temp" → getSig t' nm = getSig t nm) := by
-  have hfs : filterSeq t (.k kern) dims = seqLoop dims (.arg kern) t := by
-    unfold filterSeq
-    cases kern with
-    | obj _ _ _ _ _ => rfl
-    | list k =>
-      match k, hone with
-      | [], _ => rfl
-      | [a], hone => exact absurd rfl (hone a)
-      | _ :: _ :: _, _ => rfl
-  rw [hfs]
   have hden : ∀ v, InDomain v w b → ∀ i, i < v.length → wtot (window v w (w.length / 2) i) ≠ 0 :=
     fun v h i hi => ne_of_gt (h.norm_pos i hi)
   have hF : ∀ (w : List α) (b : Bool) (v : List (Option α)), (meanSignal v w b).length = v.length := by
@@ -335,6 +332,33 @@ theorem filterSeq_is_mean (t : Sigs α) (kern : KArg α) (w : List α) (b : Bool
       intro d hd
       obtain ⟨v, hv, hin⟩ := hall d hd
       exact ⟨v, hv, stable_obj v b f support S w hw (filterWindow_eq v _ b hin.odd (hden v hin) hin.long)⟩
+
+/-- **`filter_seq`** For a weight list (not of length one), a Kernel object or the Dirac kernel, on a
+track with at least one observation, and distinct dimensions none of which is the scratch feature
+`temp` or one of the virtual features `t`, `timestamp`, `idx`, every one of which is a signal of the
+track in the domain: `filter_seq` succeeds; each listed coordinate / feature is replaced by the
+signal of renormalised weighted means of its own former values (the same window for all of them —
+the in-place normalisation of the list at the first dimension does not change the result for the
+following ones); every other signal except `temp` is untouched. -/
+theorem filterSeq_is_mean (t : Sigs α) (kern : KArg α) (w : List α) (b : Bool) (dims : List String)
+    (hp : Prepared kern w b) (hone : ∀ a, kern ≠ .list [a])
+    (hnd : dims.Nodup) (htemp : "temp" ∉ dims)
+    (hres : ∀ d ∈ dims, d ≠ "t" ∧ d ≠ "timestamp" ∧ d ≠ "idx") (hsize : trackSize t ≠ 0)
+    (hall : ∀ d ∈ dims, ∃ v, getSig t d = some v ∧ InDomain v w b) :
+    ∃ t', filterSeq t (.k kern) dims = .ok t' ∧
+      (∀ d ∈ dims, ∃ v, getSig t d = some v ∧ getSig t' d = some (meanSignal v w b)) ∧
+      (∀ nm, nm ∉ dims → nm ≠ "temp" → getSig t' nm = getSig t nm) := by
+  have hfs : filterSeq t (.k kern) dims = seqLoop dims (.arg kern) t := by
+    unfold filterSeq
+    cases kern with
+    | obj _ _ _ _ _ => rfl
+    | list k =>
+      match k, hone with
+      | [], _ => rfl
+      | [a], hone => exact absurd rfl (hone a)
+      | _ :: _ :: _, _ => rfl
+  rw [hfs]
+  exact seqLoop_is_mean t kern w b dims hp hnd htemp hres hsize hall
 
 /-- **`filter_seq` with an integer kernel** `n` stands for the list `[1]*n`; `n = 1` (like any
 one-element list) returns the track unchanged. -/
@@ -561,6 +585,88 @@ theorem operate_refusals (t : Sigs α) (afIn afOut : String) (k : List α) (hodd
     unfold operate resolve prepare
     simp [normalise_length, h1, hr, h0]
 
+/-! ## The argument forms of `Track.operate(Operator.FILTER, arg1, kernel[, arg3])` -/
+
+/-- the in-place list form on feature names runs the loop of `filter_seq` -/
+theorem operatePairs_inplace (dims : List String) (hxyz : ∀ d ∈ dims, ¬ (d = "x" ∨ d = "y" ∨ d = "z")) :
+    ∀ (kern : KSrc α) (t : Sigs α), (operatePairs (dims.zip dims) kern t).map (·.2) = seqLoop dims kern t := by
+  induction dims with
+  | nil => intro kern t; rw [List.zip_nil_left, operatePairs, seqLoop]; rfl
+  | cons af rest ih =>
+    intro kern t
+    have h := hxyz af List.mem_cons_self
+    have hc : ¬ ((af == "x") = true ∨ (af == "y") = true ∨ (af == "z") = true) := by simpa using h
+    rw [List.zip_cons_cons, operatePairs, seqLoop, if_neg hc]
+    rcases operate t af kern af with e | ⟨k', out, t'⟩
+    · rfl
+    · exact ih (fun d hd => hxyz d (List.mem_cons_of_mem _ hd)) k' t'
+
+/-- **Output name omitted** (`track.operate(Operator.FILTER, af, kernel)`): `arg3 = arg1`, the feature is
+filtered in place — it becomes its own mean signal, which is also returned; nothing else changes. The same for a
+list of names with `arg3` omitted or equal to `arg1`; lists of different lengths are refused. -/
+theorem operate_output_omitted (t : Sigs α) (afIn : String) (kern : KArg α) (w : List α) (b : Bool)
+    (hp : Prepared kern w b) (v : List (Option α)) (hres : reservedName afIn = false) (hsize : trackSize t ≠ 0)
+    (hv : getSig t afIn = some v) (hin : InDomain v w b) :
+    operateArgs t (.arg kern) (.one afIn none) = operateArgs t (.arg kern) (.one afIn (some afIn)) ∧
+    ∃ k' t', operateArgs t (.arg kern) (.one afIn none) = .ok (.arg (nextKernel kern k'), some (meanSignal v w b), t') ∧
+      getSig t' afIn = some (meanSignal v w b) ∧ ∀ nm, nm ≠ afIn → getSig t' nm = getSig t nm := by
+  refine ⟨rfl, ?_⟩
+  obtain ⟨k', t', h1, h2, h3⟩ := operate_is_mean t afIn afIn kern w b hp v hres hsize hv hin
+  refine ⟨k', t', ?_, h2, h3⟩
+  unfold operateArgs
+  simp only [Option.getD_none, h1]
+
+/-- **Lists of names** (`track.operate(Operator.FILTER, [a, c, …], kernel)`, `arg3` omitted or the same list):
+distinct features (not coordinates, whose names cannot be written as features; not the virtual `t`, `timestamp`,
+`idx`) of a non-empty track, each in the domain: the call succeeds, returns nothing, every listed feature becomes
+its own mean signal — one window for all of them although the weight list is normalised in place again at every
+turn — and no other signal changes. Lists of different lengths are refused before anything is computed. -/
+theorem operate_list_is_mean (t : Sigs α) (kern : KArg α) (w : List α) (b : Bool) (dims : List String)
+    (hp : Prepared kern w b) (hnd : dims.Nodup) (htemp : "temp" ∉ dims)
+    (hres : ∀ d ∈ dims, d ≠ "t" ∧ d ≠ "timestamp" ∧ d ≠ "idx")
+    (hxyz : ∀ d ∈ dims, ¬ (d = "x" ∨ d = "y" ∨ d = "z")) (hsize : trackSize t ≠ 0)
+    (hall : ∀ d ∈ dims, ∃ v, getSig t d = some v ∧ InDomain v w b) :
+    (∃ k' t', operateArgs t (.arg kern) (.many dims none) = .ok (k', none, t') ∧
+      operateArgs t (.arg kern) (.many dims (some dims)) = .ok (k', none, t') ∧
+      (∀ d ∈ dims, ∃ v, getSig t d = some v ∧ getSig t' d = some (meanSignal v w b)) ∧
+      (∀ nm, nm ∉ dims → nm ≠ "temp" → getSig t' nm = getSig t nm)) ∧
+    (∀ (ks : KSrc α) (outs : List String), dims.length ≠ outs.length →
+      operateArgs t ks (.many dims (some outs)) = .error .operands) := by
+  constructor
+  · obtain ⟨t', h1, h2, h3⟩ := seqLoop_is_mean t kern w b dims hp hnd htemp hres hsize hall
+    have hpairs := operatePairs_inplace dims hxyz (.arg kern) t
+    rw [h1] at hpairs
+    rcases hop : operatePairs (dims.zip dims) (.arg kern) t with e | ⟨k', t''⟩
+    · rw [hop] at hpairs; cases hpairs
+    · rw [hop] at hpairs
+      have e : t'' = t' := by
+        have : Except.ok (ε := Err) t'' = Except.ok t' := hpairs
+        cases this; rfl
+      subst e
+      refine ⟨k', t'', ?_, ?_, h2, h3⟩
+      · unfold operateArgs
+        simp [hop]
+      · unfold operateArgs
+        simp [hop]
+  · intro ks outs hne
+    unfold operateArgs
+    simp [hne]
+
+/-- **A float given as kernel** (the comment above `filter_seq` documents "a float number giving the half width of
+a rectangular window"): it is neither an `int`, a list nor a Kernel object; `Filter.execute` raises `TypeError` at
+`len(kernel)` during the kernel preparation — before the track, the names or the output feature are looked at —
+so `filter_seq` fails at the first dimension (and returns the track untouched when `dim` is empty). Never a value. -/
+theorem number_kernel_refused (t : Sigs α) (af : String) (rest : List String) :
+    filterSeq t .num (af :: rest) = .error .kernelType ∧ filterSeq t .num [] = .ok t ∧
+    ∀ afIn afOut, operate t afIn .num afOut = .error .kernelType := by
+  have hop : ∀ afIn afOut, operate t afIn (KSrc.num : KSrc α) afOut = .error .kernelType := by
+    intro afIn afOut; unfold operate resolve; rfl
+  refine ⟨?_, by unfold filterSeq; simp only; rw [seqLoop], hop⟩
+  unfold filterSeq
+  simp only
+  rw [seqLoop]
+  split <;> simp [hop]
+
 /-! ## The `dim` argument, module-level state, sessions, `Track.smooth` -/
 
 /-- **Dispatch on `dim`**: omitted, it is `FILTER_XYZ` = x, y, z; a module constant `FILTER_…` stands for
@@ -625,6 +731,298 @@ theorem smooth_is_mean (t : Sigs α) (f : α → α) (support : α) (S : Nat) (w
   show filterSeqCall Globals.initial t _ .default = _
   rw [(dim_dispatch Globals.initial t _).1]
   exact congrArg (fun r => some (r, Globals.initial)) h1
+
+/-! ## The same track filtered again with the same kernel object -/
+
+/-- the domain does not depend on the scale of a weight list: after `kernel[i] /= sum` it is still in it -/
+theorem inDomain_normalise (v : List (Option α)) (k : List α) (h : InDomain v k false) (hs : k.sum ≠ 0) :
+    InDomain v (normalise k) false := by
+  have hsum : 0 < k.sum := lt_of_le_of_ne (sum_nonneg' k h.nonneg) (Ne.symm hs)
+  refine ⟨by rw [normalise_length]; exact h.odd, ?_, ?_, by intro hb; rw [normalise_length]; exact h.long hb⟩
+  · intro w hw
+    rw [normalise_eq, List.mem_map] at hw
+    obtain ⟨x, hx, rfl⟩ := hw
+    exact div_nonneg (h.nonneg x hx) (le_of_lt hsum)
+  · intro i hi
+    rw [normalise_length, wtot_window_normalise]
+    exact div_pos (h.norm_pos i hi) hsum
+
+/-- **`filter_seq` called twice on the same track with the same kernel object and the same names** (the second
+call finds the scratch feature `temp` in the track and a weight list that the first call has normalised in place,
+once per dimension): when every listed signal and its mean signal are in the domain, both calls succeed, the first
+gives the mean signals and the second the mean signals of the mean signals under the *same* window; every other
+signal except `temp` is untouched. -/
+theorem filterSeq_twice (g : Globals) (t : Sigs α) (kern : KArg α) (w : List α) (b : Bool) (dims : List String)
+    (hp : Prepared kern w b) (hone : ∀ a, kern ≠ .list [a]) (hne : dims ≠ [])
+    (hnd : dims.Nodup) (htemp : "temp" ∉ dims)
+    (hres : ∀ d ∈ dims, d ≠ "t" ∧ d ≠ "timestamp" ∧ d ≠ "idx") (hsize : trackSize t ≠ 0)
+    (hall : ∀ d ∈ dims, ∃ v, getSig t d = some v ∧ InDomain v w b ∧ InDomain (meanSignal v w b) w b) :
+    ∃ t1 t2, filterSeqRepeat g t (.k kern) (.list dims) 2 = [some (.ok t1, g), some (.ok t2, g)] ∧
+      (∀ d ∈ dims, ∃ v, getSig t d = some v ∧ getSig t1 d = some (meanSignal v w b) ∧
+        getSig t2 d = some (meanSignal (meanSignal v w b) w b)) ∧
+      (∀ nm, nm ∉ dims → nm ≠ "temp" → getSig t2 nm = getSig t nm) := by
+  obtain ⟨t1, h1, h2, h3⟩ := filterSeq_is_mean t kern w b dims hp hone hnd htemp hres hsize
+    (fun d hd => by obtain ⟨v, hv, hin, _⟩ := hall d hd; exact ⟨v, hv, hin⟩)
+  have hsize1 : trackSize t1 ≠ 0 := by
+    have e : trackSize t1 = trackSize t := by
+      unfold trackSize
+      by_cases hx : "x" ∈ dims
+      · obtain ⟨v, hv, hv'⟩ := h2 "x" hx
+        rw [hv, hv']; simp [meanSignal]
+      · rw [h3 "x" hx (by decide)]
+    rw [e]; exact hsize
+  have hall1 : ∀ (w' : List α), (∀ v, InDomain v w b → InDomain v w' b) →
+      ∀ d ∈ dims, ∃ v', getSig t1 d = some v' ∧ InDomain v' w' b := by
+    intro w' hw' d hd
+    obtain ⟨v, hv, _, hin2⟩ := hall d hd
+    obtain ⟨v0, hv0, hv0'⟩ := h2 d hd
+    rw [hv] at hv0; cases hv0
+    exact ⟨_, hv0', hw' _ hin2⟩
+  -- the kernel object after the first call, its window, and the second call
+  have key : ∃ (kern2 : KArg α) (w2 : List α), seqKernelAfter (.k kern) dims = .k kern2 ∧ Prepared kern2 w2 b ∧
+      (∀ a, kern2 ≠ .list [a]) ∧ (∀ v, InDomain v w b → InDomain v w2 b) ∧ (∀ v, meanSignal v w2 b = meanSignal v w b) := by
+    cases kern with
+    | obj dirac fb f support S => exact ⟨_, w, rfl, hp, fun a h => (by cases h), fun _ h => h, fun _ => rfl⟩
+    | list k =>
+      obtain ⟨rfl, rfl, hs⟩ := hp
+      have hlen : w.length ≠ 1 := by
+        intro hl
+        match w, hl with
+        | [a], _ => exact hone a rfl
+      have hdl : 0 < dims.length := List.length_pos_of_ne_nil hne
+      refine ⟨.list (normalise w), normalise w, ?_, ⟨rfl, rfl, by rw [normalise_sum w hs]; exact one_ne_zero⟩, ?_,
+        fun v h => inDomain_normalise v w h hs, fun v => meanSignal_normalise v w false hs⟩
+      · unfold seqKernelAfter
+        simp only [beq_iff_eq, hlen, if_false]
+        rw [normaliseN_of_pos w hs _ hdl]
+      · intro a h
+        have : (normalise w).length = 1 := by rw [KArg.list.inj h]; rfl
+        rw [normalise_length] at this
+        exact hlen this
+  obtain ⟨kern2, w2, hk2, hp2, hone2, hdom2, hmean2⟩ := key
+  obtain ⟨t2, g1, g2, g3⟩ := filterSeq_is_mean t1 kern2 w2 b dims hp2 hone2 hnd htemp hres hsize1 (hall1 w2 hdom2)
+  refine ⟨t1, t2, ?_, ?_, ?_⟩
+  · simp only [filterSeqRepeat, dimNames, h1, hk2, g1]
+  · intro d hd
+    obtain ⟨v, hv, hv'⟩ := h2 d hd
+    obtain ⟨v1, hv1, hv1'⟩ := g2 d hd
+    rw [hv'] at hv1; cases hv1
+    exact ⟨v, hv, hv', by rw [hv1', hmean2]⟩
+  · intro nm hnm hnt
+    rw [g3 nm hnm hnt, h3 nm hnm hnt]
+
+/-! ## Tracks shorter than the window (`track.size() < N = 2D+1`)
+
+The statement defines every output whatever the length of the track: a window that overhangs both ends at
+once is renormalised over the samples that are inside the track; and when boundaries are not filtered every
+index of such a track lies in the first or in the last half window. What `Filter.execute` does:
+* boundaries filtered: the renormalised mean at every index (`short_track_filtered`) — T1 has no length
+  hypothesis for `boundary = true`;
+* boundaries copied, `D ≤ size < N`: the input is returned unchanged (`short_track_unchanged`);
+* boundaries copied, `size < D`: the boundary loops read `input[i]` for `i in range(D)` and raise `IndexError`
+  (`short_track_index_error`) — after the filtering loop, so a zero norm still comes first (`zero_norm_fails`). -/
+
+/-- **Domain, any length** non-negative weights with a positive centre weight (every window of a Kernel
+object satisfying `window_nonneg`, `[0,1,0]`, any positive list) and a signal without NaN: every window holds
+its own centre sample, so no norm is zero — whatever the length of the signal when boundaries are filtered,
+and from the half window on when they are copied. -/
+theorem inDomain_of_centre_weight (v : List (Option α)) (k : List α) (boundary : Bool)
+    (hodd : k.length % 2 = 1) (hnn : ∀ w ∈ k, 0 ≤ w) (c : α) (hc : k[k.length / 2]? = some c) (hpos : 0 < c)
+    (hv : ∀ i, i < v.length → ∃ x, v[i]? = some (some x))
+    (hlen : boundary = false → k.length / 2 ≤ v.length) : InDomain v k boundary where
+  odd := hodd
+  nonneg := hnn
+  norm_pos := fun i hi => by
+    obtain ⟨x, hx⟩ := hv i hi
+    exact wtot_pos_of_mem _ (fun p hp => hnn _ (window_weight_mem hp)) (c, x)
+      (centre_mem_window v k i x c hx hc) hpos
+  long := hlen
+
+/-- **Short tracks, boundaries filtered** (`setFilterBoundary(True)`), any length — in particular a track
+shorter than the window: the call succeeds and *every* output is the renormalised weighted mean of its window,
+lying between two samples of that window; and on a track of at most `D+1` observations every window holds every
+valid sample of the track (`v[m]` with the weight `k[i+D-m]`): each output is a weighted mean of the whole track. -/
+theorem short_track_filtered (v : List (Option α)) (k : List α) (h : InDomain v k true) :
+    ∃ out, filterWindow v k true = .ok out ∧ out.length = v.length ∧
+      ∀ i, i < v.length →
+        out[i]? = some (some (wmean (window v k (k.length / 2) i))) ∧
+        (∃ p ∈ window v k (k.length / 2) i, p.2 ≤ wmean (window v k (k.length / 2) i)) ∧
+        (∃ p ∈ window v k (k.length / 2) i, wmean (window v k (k.length / 2) i) ≤ p.2) ∧
+        (v.length ≤ k.length / 2 + 1 → ∀ (m : Nat) (x : α), v[m]? = some (some x) →
+          ∃ w, k[i + k.length / 2 - m]? = some w ∧ (w, x) ∈ window v k (k.length / 2) i) := by
+  obtain ⟨out, h1, h2, h3⟩ := filter_is_mean v k true h
+  refine ⟨out, h1, h2, fun i hi => ?_⟩
+  have hm := h3 i hi (Or.inl rfl)
+  obtain ⟨y, hy, hlo, hhi⟩ := filter_between_samples v k true h out h1 i hi (Or.inl rfl)
+  rw [hm] at hy
+  cases hy
+  refine ⟨hm, hlo, hhi, ?_⟩
+  intro hshort m x hx
+  have hmlt : m < v.length := by
+    rcases Nat.lt_or_ge m v.length with h | h
+    · exact h
+    · rw [List.getElem?_eq_none h] at hx; simp at hx
+  exact mem_window_of_sample v k i m x h.odd (by omega) (by omega) hx
+
+/-- **Short tracks, boundaries copied, at least the half window** (`D ≤ size < N`; every weight list, every
+kernel on which `setFilterBoundary(True)` was not called): every index lies in the first or last half window
+and the input is returned unchanged, NaN included. -/
+theorem short_track_unchanged (v : List (Option α)) (k : List α) (h : InDomain v k false)
+    (hshort : v.length < k.length) : filterWindow v k false = .ok v := by
+  rw [filterWindow_eq v k false h.odd (fun i hi => ne_of_gt (h.norm_pos i hi)) h.long,
+    meanSignal_short v k (by have := h.odd; omega)]
+
+/-- **Short tracks, boundaries copied, shorter than the half window** (`size < D`): odd window, no zero norm —
+the filtering loop runs, then the boundary copy raises `IndexError`: no value is returned, in particular never
+a wrong one. (Outside the property's quantifier, which starts at signals as long as the window; the statement's
+"first and last half-window values are returned unchanged" would ask for the input.) -/
+theorem short_track_index_error (v : List (Option α)) (k : List α) (hodd : k.length % 2 = 1)
+    (hden : ∀ i, i < v.length → wtot (window v k (k.length / 2) i) ≠ 0)
+    (hlen : v.length < k.length / 2) : filterWindow v k false = .error .index :=
+  filterWindowG_short_index v k false hodd hden hlen
+
+/-- **`Filter.execute` as a whole on a short track with copied boundaries** (weight list, Kernel object or
+Dirac kernel prepared into the window `w`): `D ≤ size < N` returns the input unchanged (a list is still left
+normalised); `size < D` raises `IndexError`. -/
+theorem execute_short_track (v : List (Option α)) (kern : KArg α) (w : List α)
+    (hp : Prepared kern w false) (hodd : w.length % 2 = 1) (hnn : ∀ x ∈ w, 0 ≤ x)
+    (hpos : ∀ i, i < v.length → 0 < wtot (window v w (w.length / 2) i)) (hshort : v.length < w.length) :
+    (w.length / 2 ≤ v.length → ∃ k', execute v kern = .ok (k', v)) ∧
+    (v.length < w.length / 2 → execute v kern = .error .index) := by
+  constructor
+  · intro hlen
+    have hin : InDomain v w false := ⟨hodd, hnn, hpos, fun _ => hlen⟩
+    obtain ⟨_, k', hex, _⟩ := execute_is_mean v kern w false hp hin
+    rw [meanSignal_short v w (by omega)] at hex
+    exact ⟨k', hex⟩
+  · intro hlen
+    have hden : ∀ i, i < v.length → wtot (window v w (w.length / 2) i) ≠ 0 := fun i hi => ne_of_gt (hpos i hi)
+    cases kern with
+    | list k =>
+      obtain ⟨rfl, _, hs⟩ := hp
+      exact execute_list_short_index v w hodd hden hlen hs
+    | obj dirac fb f support S =>
+      cases dirac with
+      | true =>
+        obtain ⟨rfl, rfl⟩ := hp
+        exact execute_dirac_err v false f support S _ (short_track_index_error v _ hodd hden hlen)
+      | false =>
+        obtain ⟨hw, rfl⟩ := hp
+        exact execute_obj_err v false f support S w _ hw (short_track_index_error v w hodd hden hlen)
+
+/-- **`Track.smooth(width)` on a track shorter than the Gaussian window** (boundaries are never filtered by
+`smooth`) but with at least `D = int(3·width)` observations: the coordinates — and everything else except the
+scratch feature `temp` — are returned unchanged. -/
+theorem smooth_short_track (t : Sigs α) (f : α → α) (support : α) (S : Nat) (w : List α)
+    (hw : slidingWindow f support S = .ok w) (hsize : trackSize t ≠ 0)
+    (hall : ∀ d ∈ ["x", "y", "z"], ∃ v, getSig t d = some v ∧ InDomain v w false ∧ v.length < w.length) :
+    ∃ t', smooth Globals.initial t f support S = some (.ok t', Globals.initial) ∧
+      ∀ nm, nm ≠ "temp" → getSig t' nm = getSig t nm := by
+  obtain ⟨t', h1, h2, h3⟩ := smooth_is_mean t f support S w hw hsize
+    (fun d hd => by obtain ⟨v, hv, hin, _⟩ := hall d hd; exact ⟨v, hv, hin⟩)
+  refine ⟨t', h1, fun nm hnm => ?_⟩
+  by_cases hmem : nm ∈ ["x", "y", "z"]
+  · obtain ⟨v, hv, hv'⟩ := h2 nm hmem
+    obtain ⟨v0, hv0, hin, hshort⟩ := hall nm hmem
+    rw [hv] at hv0
+    cases hv0
+    rw [hv', hv, meanSignal_short v w (by have := hin.odd; omega)]
+  · exact h3 nm hmem hnm
+
+/-- … and with fewer than `D` observations (`Track.smooth()` on a 2-point track: `D = 3`) the call raises
+`IndexError` at the first coordinate, the module-level state being untouched. -/
+theorem smooth_too_short_fails (t : Sigs α) (f : α → α) (support : α) (S : Nat) (w : List α)
+    (hw : slidingWindow f support S = .ok w) (hodd : w.length % 2 = 1)
+    (v : List (Option α)) (hv : getSig t "x" = some v) (hne : v.length ≠ 0)
+    (hden : ∀ i, i < v.length → wtot (window v w (w.length / 2) i) ≠ 0) (hlen : v.length < w.length / 2) :
+    smooth Globals.initial t f support S = some (.error .index, Globals.initial) := by
+  show filterSeqCall Globals.initial t _ .default = _
+  rw [(dim_dispatch Globals.initial t _).1]
+  have hsize : trackSize t ≠ 0 := by unfold trackSize; rw [hv]; exact hne
+  have hop : operate t "x" (.arg (.obj false false f support S)) "temp" = .error .index :=
+    operate_arg_fw_err t "x" "temp" _ v none w false false .index (by simp [prepare, hw]) hodd
+      reservedName_temp hsize (by rw [getSig_createAF_other _ _ _ (by decide)]; exact hv)
+      (filterWindowG_short_index v w false hodd hden hlen)
+  have : filterSeq t (.k (.obj false Globals.initial.kernelFilterBoundary f support S)) ["x", "y", "z"] = .error .index := by
+    show seqLoop ["x", "y", "z"] (.arg (.obj false false f support S)) t = _
+    rw [seqLoop]
+    simp [hop]
+  rw [this]
+
+/-! ## The kernels written with `math.pow` and `math.exp` -/
+
+/-- **T5 for a kernel function that is even, non-negative everywhere and positive at 0**, support at least 1:
+the sliding window is odd, symmetric, sums to 1 and is non-negative, with a positive centre weight. -/
+theorem window_of_even_nonneg_kernel (f : α → α) (support : α) (S : Nat) (hs : ¬ support < 1)
+    (heven : ∀ y, f (-y) = f y) (hnn : ∀ x, 0 ≤ f x) (hc : 0 < f 0) :
+    ∃ w, slidingWindow f support S = .ok w ∧ GoodWindow w S ∧ ∃ c, w[w.length / 2]? = some c ∧ 0 < c := by
+  obtain ⟨hsum, w, hw, hn, hcentre⟩ := window_nonneg f support S hs (fun i _ => hnn _) hc
+  obtain ⟨w', hw', h1, h2, h3, h4⟩ := window_shape f support S hs heven (ne_of_gt hsum)
+  rw [hw] at hw'
+  cases hw'
+  exact ⟨w, hw, ⟨h1, h2, h3, h4, hn⟩, hcentre⟩
+
+/-- **`CubicKernel` and `SphericKernel`** (`math.pow` with the exponents 2, 3, 5, 7 is a product): their kernel
+functions are even, equal to 1 at 0, and non-negative — they are `(1-u)⁴(3u³+12u²+16u+4)/4` and `(1-u)²(2+u)/2`
+with `u = |x|/sigma ≥ 0`. -/
+theorem pow_kernels (sigma : α) (h : 0 < sigma) :
+    (∀ y, cubicF sigma (-y) = cubicF sigma y) ∧ (∀ x, 0 ≤ cubicF sigma x) ∧ cubicF sigma 0 = 1 ∧
+    (∀ y, sphericF sigma (-y) = sphericF sigma y) ∧ (∀ x, 0 ≤ sphericF sigma x) ∧ sphericF sigma 0 = 1 :=
+  ⟨cubicF_even sigma, fun x => cubicF_nonneg sigma x h, cubicF_zero sigma,
+   sphericF_even sigma, fun x => sphericF_nonneg sigma x h, sphericF_zero sigma⟩
+
+/-- … hence, for any `sigma ≥ 1` (their support), their sliding windows are odd, symmetric, non-negative and sum to 1. -/
+theorem pow_kernel_windows (sigma : α) (S : Nat) (hs : ¬ sigma < 1) :
+    (∃ w, slidingWindow (cubicF sigma) (cubicSupport sigma) S = .ok w ∧ GoodWindow w S) ∧
+    (∃ w, slidingWindow (sphericF sigma) (sphericSupport sigma) S = .ok w ∧ GoodWindow w S) := by
+  have hpos : 0 < sigma := lt_of_lt_of_le one_pos (le_of_not_gt hs)
+  obtain ⟨c1, c2, c3, s1, s2, s3⟩ := pow_kernels sigma hpos
+  obtain ⟨w, hw, hg, _⟩ := window_of_even_nonneg_kernel (cubicF sigma) (cubicSupport sigma) S hs c1 c2 (by rw [c3]; exact one_pos)
+  obtain ⟨w', hw', hg', _⟩ := window_of_even_nonneg_kernel (sphericF sigma) (sphericSupport sigma) S hs s1 s2 (by rw [s3]; exact one_pos)
+  exact ⟨⟨w, hw, hg⟩, ⟨w', hw', hg'⟩⟩
+
+/-- **`GaussianKernel` and `ExponentialKernel`**, `math.exp` being any function with positive values and
+`math.sqrt(2·math.pi)` any positive constant, for any `sigma` with support `3·sigma ≥ 1`: the kernel functions are
+even and positive, the sliding windows odd, symmetric, non-negative, summing to 1. -/
+theorem exp_kernel_windows (expF : α → α) (hexp : ∀ y, 0 < expF y) (c : α) (hc : 0 < c) (sigma : α) (S : Nat)
+    (hs : ¬ gaussianSupport sigma < 1) :
+    (∃ w, slidingWindow (gaussianF expF c sigma) (gaussianSupport sigma) S = .ok w ∧ GoodWindow w S) ∧
+    (∃ w, slidingWindow (exponentialF expF sigma) (exponentialSupport sigma) S = .ok w ∧ GoodWindow w S) := by
+  have hpos : 0 < sigma := by
+    unfold gaussianSupport at hs
+    push_cast at hs
+    by_contra hn
+    exact hs (by linarith [not_lt.mp hn])
+  obtain ⟨w, hw, hg, _⟩ := window_of_even_nonneg_kernel (gaussianF expF c sigma) (gaussianSupport sigma) S hs
+    (gaussianF_even expF c sigma) (fun x => le_of_lt (gaussianF_pos expF hexp c sigma x hc hpos)) (gaussianF_pos expF hexp c sigma 0 hc hpos)
+  obtain ⟨w', hw', hg', _⟩ := window_of_even_nonneg_kernel (exponentialF expF sigma) (exponentialSupport sigma) S hs
+    (exponentialF_even expF sigma) (fun x => le_of_lt (exponentialF_pos expF hexp sigma x hpos)) (exponentialF_pos expF hexp sigma 0 hpos)
+  exact ⟨⟨w, hw, hg⟩, ⟨w', hw', hg'⟩⟩
+
+/-- **`Track.smooth(width)` with the Gaussian kernel function written out** (`math.exp` positive): on a track
+whose coordinates hold no NaN and at least `D = int(3·width)` observations, the Gaussian window exists (odd,
+symmetric, non-negative, sum 1), the call succeeds, every coordinate becomes the signal of renormalised
+weighted means of its former values (boundaries copied), features are untouched. -/
+theorem smooth_gaussian (expF : α → α) (hexp : ∀ y, 0 < expF y) (c : α) (hc : 0 < c) (width : α) (S : Nat)
+    (hs : ¬ gaussianSupport width < 1) (t : Sigs α) (hsize : trackSize t ≠ 0)
+    (hall : ∀ d ∈ ["x", "y", "z"], ∃ v, getSig t d = some v ∧ S ≤ v.length ∧ ∀ i, i < v.length → ∃ x, v[i]? = some (some x)) :
+    ∃ w t', slidingWindow (gaussianF expF c width) (gaussianSupport width) S = .ok w ∧ GoodWindow w S ∧
+      smooth Globals.initial t (gaussianF expF c width) (gaussianSupport width) S = some (.ok t', Globals.initial) ∧
+      (∀ d ∈ ["x", "y", "z"], ∃ v, getSig t d = some v ∧ getSig t' d = some (meanSignal v w false)) ∧
+      (∀ nm, nm ∉ ["x", "y", "z"] → nm ≠ "temp" → getSig t' nm = getSig t nm) := by
+  have hpos : 0 < width := by
+    unfold gaussianSupport at hs
+    push_cast at hs
+    by_contra hn
+    exact hs (by linarith [not_lt.mp hn])
+  obtain ⟨w, hw, hg, c0, hc0, hc0pos⟩ := window_of_even_nonneg_kernel (gaussianF expF c width) (gaussianSupport width) S hs
+    (gaussianF_even expF c width) (fun x => le_of_lt (gaussianF_pos expF hexp c width x hc hpos)) (gaussianF_pos expF hexp c width 0 hc hpos)
+  obtain ⟨t', h1, h2, h3⟩ := smooth_is_mean t _ _ S w hw hsize (fun d hd => by
+    obtain ⟨v, hv, hlen, hnan⟩ := hall d hd
+    refine ⟨v, hv, inDomain_of_centre_weight v w false hg.odd hg.nonneg c0 hc0 hc0pos hnan (fun _ => ?_)⟩
+    have := hg.length
+    omega)
+  exact ⟨w, t', hw, hg, h1, h2, h3⟩
 
 /-! ## The domain is sharp, and it is inhabited -/
 
@@ -691,6 +1089,42 @@ no weighted mean, the output is NaN; the call does not fail (numpy weights) -/
 example : execute (α := ℚ) [some 1, none, some 3] (.list [0, 1, 0]) = .ok (some [0, 1, 0], [some 1, none, some 3]) := by
   simp [execute, prepare, normalise, filterWindowG, cells, inner, sample, anySample, copyBoundary, List.range, List.range.loop,
     List.zipIdx]
+
+/-- a 3-point track under the 5-tap window of `UniformKernel(1)` with filtered boundaries: every window
+overhangs both ends, each output is the mean renormalised over the samples inside the track -/
+example : filterWindow (α := ℚ) [some 0, some 10, some 0] [0, 1/3, 1/3, 1/3, 0] true
+    = .ok [some 5, some (10/3), some 5] := by
+  simp [filterWindow, filterWindowG, cells, inner, sample, List.range, List.range.loop]
+  norm_num
+
+/-- … in the domain of `short_track_filtered` (positive centre weight, no NaN) -/
+example : InDomain (α := ℚ) [some 0, some 10, some 0] [0, 1/3, 1/3, 1/3, 0] true := by
+  apply inDomain_of_centre_weight _ _ _ (by decide) _ (1/3) rfl (by norm_num)
+  · intro i hi
+    have : i = 0 ∨ i = 1 ∨ i = 2 := by simp at hi; omega
+    rcases this with rfl | rfl | rfl <;> exact ⟨_, rfl⟩
+  · intro h; cases h
+  · intro w hw; simp at hw; rcases hw with rfl | rfl | rfl <;> norm_num
+
+/-- the same track with copied boundaries (`D = 2 ≤ 3 < 5`) is returned unchanged … -/
+example : filterWindow (α := ℚ) [some 0, some 10, some 0] [0, 1/3, 1/3, 1/3, 0] false
+    = .ok [some 0, some 10, some 0] := by
+  simp [filterWindow, filterWindowG, cells, inner, sample, copyBoundary, List.range, List.range.loop]
+  norm_num
+
+/-- … and a 1-point track (`1 < D = 2`) makes the boundary copy fail -/
+example : filterWindow (α := ℚ) [some 7] [0, 1/3, 1/3, 1/3, 0] false = .error .index := by
+  simp [filterWindow, filterWindowG, cells, inner, sample, List.range, List.range.loop]
+
+/-- the sliding window of `SphericKernel(2)`: `f(±1) = 1 - (3/4 - 1/16) = 5/16`, `f(±2) = 0` -/
+example : slidingWindow (sphericF (2 : ℚ)) (sphericSupport 2) 2 = .ok [0, 5/26, 8/13, 5/26, 0] := by
+  simp [slidingWindow, sphericSupport, sphericF, powN, evaluate, samplePoint, absv, ind, List.range, List.range.loop]
+  norm_num
+
+/-- the sliding window of `CubicKernel(2)`: `f(±1) = 1 - (7/4 - 35/32 + 7/64 - 3/512) = 123/512` -/
+example : slidingWindow (cubicF (2 : ℚ)) (cubicSupport 2) 2 = .ok [0, 123/758, 256/379, 123/758, 0] := by
+  simp [slidingWindow, cubicSupport, cubicF, powN, evaluate, samplePoint, absv, ind, List.range, List.range.loop]
+  norm_num
 
 /-- `dim="xy"` is walked character by character -/
 example : dimNames Globals.initial (.str "xy") = some ["x", "y"] := by decide
